@@ -105,6 +105,7 @@ func utf8_num_bytes [C12]
   modifies nothing
   ensures s.B == nil ==> result == 0
   ensures forall n int :: s.B != nil && nulAt(s, n) ==> result == widthAt(s, n)
+  ensures 0 <= result && result <= 4
   loop 0 invariant 0 <= len_ && len_ <= 4 && it.B == s.B && it.O == s.O + len_ && s_addr == s && s.B != nil
   loop 0 invariant forall n int :: nulAt(s, n) ==> len_ <= n
 
@@ -199,6 +200,7 @@ func utf8_char_to_string
   modifies ddprt.Blk.$m
   ensures validCp(p1) ==> result == encLen(p1) && byteAt(p0, result) == 0 && (forall k int :: 0 <= k && k < result ==> byteAt(p0, k) == encByte(p1, k))
   ensures !validCp(p1) ==> result == -1
+  ensures result == -1 || (1 <= result && result <= 4)
   ensures forall b *Blk, k int :: !(b == p0.B && p0.O <= k && k < p0.O + 5) ==> b.$m[k] == old(b.$m[k])
 // decodes the first character of the C string p0 into *p1; returns its width (0 if malformed)
 func utf8_string_to_char
@@ -322,6 +324,28 @@ func ddp_string_index [C12, C06]
   loop 0 invariant 0 <= i && i <= lenB(str) && (i < lenB(str) ==> !isCont(byteAt(str.str, i)))
   loop 0 invariant 1 <= len_ && len_ <= index && count(k, 0, i, !isCont(byteAt(str.str, k))) == index - len_
   loop 0 invariant str_addr == str && index_addr == index && str.str.B != nil && str.cap >= 2
+  loop 0 decreases lenB(str) - i
+
+// character replacement: the index-th code point becomes ch; everything before and after keeps its bytes
+// (i is the function's own cursor: the byte offset of the replaced character)
+func ddp_replace_char_in_string [C12, C06, C05]
+  requires wfStr(str) && validT(str)
+  requires validCp(ch) && ch != 0
+  modifies ddprt.ddpstring, ddprt.Blk.$m, ddprt.Blk.$n
+  callsite ddp_runtime_error requires index < 1 || index > cpCount(str)
+  ensures 1 <= index && index <= old(cpCount(str))
+  // the Text is well-formed again: exactly cap bytes, terminated, no terminator inside
+  ensures wfStr(str)
+  // L: the cursor has been placed, nothing has been written yet
+  at L before call utf8_char_to_string
+  ensures lenB(str) == at(L, lenB(str)) - at(L, leadW(byteAt(str.str, i))) + encLen(ch)
+  ensures forall k int :: 0 <= k && k < i ==> byteAt(str.str, k) == at(L, byteAt(str.str, k))
+  ensures forall k int :: 0 <= k && k < encLen(ch) ==> byteAt(str.str, i + k) == encByte(ch, k)
+  ensures forall k int :: 0 <= k && i + at(L, leadW(byteAt(str.str, i))) + k < at(L, lenB(str)) ==>
+            byteAt(str.str, i + encLen(ch) + k) == at(L, byteAt(str.str, i + leadW(byteAt(str.str, i)) + k))
+  loop 0 invariant 0 <= i && i <= lenB(str) && (i < lenB(str) ==> !isCont(byteAt(str.str, i)))
+  loop 0 invariant 1 <= len_ && len_ <= index && count(k, 0, i, !isCont(byteAt(str.str, k))) == index - len_
+  loop 0 invariant str_addr == str && index_addr == index && ch_addr == ch && str.str.B != nil && str.cap >= 2
   loop 0 decreases lenB(str) - i
 @*/
 #endif
